@@ -36,7 +36,7 @@ func init() {
 		vals = append(vals, args[0])
 		for i := 1; i < len(e.Args) && plain; i++ {
 			b, ok := types.Unalias(f.typeOf(e.Args[i])).Underlying().(*types.Basic)
-			if !ok || b.Info()&(types.IsString|types.IsInteger|types.IsBoolean) == 0 {
+			if (!ok || b.Info()&(types.IsString|types.IsInteger|types.IsBoolean) == 0) && !isBytes(f.typeOf(e.Args[i])) {
 				plain = false
 				break
 			}
@@ -918,4 +918,177 @@ func (c *Ctx) timeLt(a, b *Term) *Term {
 
 func init() {
 	models[memdbPkg+".MemDB.Txn"] = modelNewTxn
+}
+
+// ---------------------------------------------------------------- armon/go-radix (trusted model)
+// A tree is a ghost map Str -> value. WalkPath(path, fn) is the loop "for the stored keys that are prefixes of
+// path, in strictly increasing length, call fn; stop when it returns true".
+
+const radixPkg = "github.com/armon/go-radix"
+
+func init() {
+	models[radixPkg+".New"] = func(f *Frame, st *State, e *ast.CallExpr, recv *Term, args []*Term, sig *types.Signature) []*Term {
+		c := f.c
+		r := f.alloc(st)
+		dom := c.heapGet(st, "RX!dom", ArrSort(SInt, ArrSort(SStr, SBool)))
+		c.heapGet(st, "RX!val", ArrSort(SInt, ArrSort(SStr, SIfc)))
+		c.heapSet(st, "RX!dom", Store(dom, r, ConstArr(ArrSort(SStr, SBool), TFalse)))
+		return []*Term{r}
+	}
+	models[radixPkg+".Tree.Get"] = func(f *Frame, st *State, e *ast.CallExpr, recv *Term, args []*Term, sig *types.Signature) []*Term {
+		c := f.c
+		dom := c.heapGet(st, "RX!dom", ArrSort(SInt, ArrSort(SStr, SBool)))
+		val := c.heapGet(st, "RX!val", ArrSort(SInt, ArrSort(SStr, SIfc)))
+		has := Select(Select(dom, recv), args[0])
+		return []*Term{Ite(has, Select(Select(val, recv), args[0]), IfaceNil), has}
+	}
+	models[radixPkg+".Tree.Insert"] = func(f *Frame, st *State, e *ast.CallExpr, recv *Term, args []*Term, sig *types.Signature) []*Term {
+		c := f.c
+		dom := c.heapGet(st, "RX!dom", ArrSort(SInt, ArrSort(SStr, SBool)))
+		val := c.heapGet(st, "RX!val", ArrSort(SInt, ArrSort(SStr, SIfc)))
+		had := Select(Select(dom, recv), args[0])
+		old := Ite(had, Select(Select(val, recv), args[0]), IfaceNil)
+		c.heapSet(st, "RX!dom", Store(dom, recv, Store(Select(dom, recv), args[0], TTrue)))
+		c.heapSet(st, "RX!val", Store(val, recv, Store(Select(val, recv), args[0], args[1])))
+		return []*Term{old, had}
+	}
+	models[radixPkg+".Tree.WalkPath"] = modelWalkPath
+}
+
+func modelWalkPath(f *Frame, st *State, e *ast.CallExpr, recv *Term, args []*Term, sig *types.Signature) []*Term {
+	c := f.c
+	ord, clauses := f.nextLoop()
+	cl := c.closureOf(args[1])
+	if cl == nil || cl.Lit == nil {
+		f.fail(e, "WalkPath needs a function literal")
+	}
+	tree := c.define(recv, "rxtree")
+	path := c.define(args[0], "rxpath")
+	strT := types.Typ[types.String]
+	boolT := types.Typ[types.Bool]
+	gLast := f.ghostVar(fmt.Sprintf("walk%d_last", ord), strT)
+	gStarted := f.ghostVar(fmt.Sprintf("walk%d_started", ord), boolT)
+	gStopped := f.ghostVar(fmt.Sprintf("walk%d_stopped", ord), boolT)
+	st.vars[gLast] = &Var{Val: Sym("strEmpty", SStr), Typ: strT}
+	st.vars[gStarted] = &Var{Val: TFalse, Typ: boolT}
+	st.vars[gStopped] = &Var{Val: TFalse, Typ: boolT}
+	ls := &loopSpec{ord: ord, clauses: clauses, pos: e.Pos()}
+	domOf := func(x *State) *Term {
+		return Select(c.heapGet(x, "RX!dom", ArrSort(SInt, ArrSort(SStr, SBool))), tree)
+	}
+	var pick *Term
+	condFn := func(x *State) *Term {
+		pick = c.fresh("rxkey", SStr)
+		more := c.fresh("rxmore", SBool)
+		dom := domOf(x)
+		last := x.vars[gLast].Val
+		started := x.vars[gStarted].Val
+		cand := func(q *Term) *Term {
+			return And(Select(dom, q), c.prefixOf(q, path), Or(Not(started), And(c.prefixOf(last, q), Ne(q, last))))
+		}
+		q := c.bvar("q", SStr)
+		c.assume(x, Implies(more, And(cand(pick), Forall([]*Term{q}, Implies(cand(q), c.prefixOf(pick, q)), Select(dom, q)))))
+		q2 := c.bvar("q", SStr)
+		c.assume(x, Implies(Not(more), Forall([]*Term{q2}, Not(cand(q2)), Select(dom, q2))))
+		return And(Not(x.vars[gStopped].Val), more)
+	}
+	bodyFn := func(x *State) *State {
+		val := Select(Select(c.heapGet(x, "RX!val", ArrSort(SInt, ArrSort(SStr, SIfc))), tree), pick)
+		x.vars[gLast].Val = pick
+		x.vars[gStarted].Val = TTrue
+		rs := f.inlineClosure(x, cl, []*Term{pick, val}, e)
+		if x.dead {
+			return nil
+		}
+		x.vars[gStopped].Val = rs[0]
+		return x
+	}
+	out := f.genericLoop(st, "", ls, condFn, bodyFn, nil)
+	if out == nil {
+		st.dead = true
+		st.pc = TFalse
+		return nil
+	}
+	*st = *out
+	return nil
+}
+
+// ---------------------------------------------------------------- hash.Hash as a ghost sequence of written items
+// (trusted: A-HASH - the digest is a function of the written sequence; distinct sequences give distinct digests is
+// the usual collision-resistance assumption and is not used by any proof, only by the reading of the contracts)
+
+func (c *Ctx) hitemSort() Sort {
+	if !c.declared["sort:HItem"] {
+		c.declared["sort:HItem"] = true
+		c.decls = append(c.decls, "(declare-datatypes ((HItem 0)) (((HB (hb Bytes)) (HI (hi Int)))))")
+		c.decls = append(c.decls, "(declare-fun hashDigest (Int (Array Int HItem)) Bytes)")
+	}
+	return "HItem"
+}
+
+func (f *Frame) hashAppend(st *State, h *Term, item *Term) {
+	c := f.c
+	is := c.hitemSort()
+	ln := c.heapGet(st, "HS!len", ArrSort(SInt, SInt))
+	it := c.heapGet(st, "HS!items", ArrSort(SInt, ArrSort(SInt, is)))
+	n := Select(ln, h)
+	c.heapSet(st, "HS!items", Store(it, h, Store(Select(it, h), n, item)))
+	c.heapSet(st, "HS!len", Store(ln, h, Add(n, IntLit(1))))
+}
+
+func init() {
+	newHash := func(f *Frame, st *State, e *ast.CallExpr, recv *Term, args []*Term, sig *types.Signature) []*Term {
+		c := f.c
+		c.hitemSort()
+		r := f.alloc(st)
+		ln := c.heapGet(st, "HS!len", ArrSort(SInt, SInt))
+		c.heapGet(st, "HS!items", ArrSort(SInt, ArrSort(SInt, "HItem")))
+		c.heapSet(st, "HS!len", Store(ln, r, IntLit(0)))
+		rt := sig.Results().At(0).Type()
+		var hv *Term = r
+		if c.sortOf(rt) == SIfc {
+			hv = App("mkI", SIfc, c.tagOf(types.NewPointer(types.Typ[types.Int])), r)
+		}
+		out := []*Term{hv}
+		for i := 1; i < sig.Results().Len(); i++ {
+			out = append(out, IfaceNil)
+		}
+		return out
+	}
+	models["golang.org/x/crypto/blake2b.New256"] = newHash
+	models["crypto/sha256.New"] = newHash
+	href := func(recv *Term) *Term {
+		if recv.Sort == SIfc {
+			return ifaceRef(recv)
+		}
+		return recv
+	}
+	models["hash.Hash.Write"] = func(f *Frame, st *State, e *ast.CallExpr, recv *Term, args []*Term, sig *types.Signature) []*Term {
+		f.c.hitemSort()
+		f.hashAppend(st, href(recv), App("HB", "HItem", args[0]))
+		return []*Term{App("bytesLen", SInt, args[0]), IfaceNil}
+	}
+	models["io.Writer.Write"] = models["hash.Hash.Write"]
+	models["hash.Hash.Sum"] = func(f *Frame, st *State, e *ast.CallExpr, recv *Term, args []*Term, sig *types.Signature) []*Term {
+		c := f.c
+		c.hitemSort()
+		h := href(recv)
+		ln := c.heapGet(st, "HS!len", ArrSort(SInt, SInt))
+		it := c.heapGet(st, "HS!items", ArrSort(SInt, ArrSort(SInt, "HItem")))
+		return []*Term{App("hashDigest", SByt, Select(ln, h), Select(it, h))}
+	}
+	models["encoding/binary.Write"] = func(f *Frame, st *State, e *ast.CallExpr, recv *Term, args []*Term, sig *types.Signature) []*Term {
+		c := f.c
+		c.hitemSort()
+		w := href(args[0])
+		// the value written: integers only
+		vt := f.typeOf(e.Args[2])
+		if b, ok := types.Unalias(vt).Underlying().(*types.Basic); ok && b.Info()&types.IsInteger != 0 {
+			v := f.unbox(st, args[2], vt)
+			f.hashAppend(st, w, App("HI", "HItem", v))
+			return []*Term{IfaceNil}
+		}
+		f.fail(e, "binary.Write of a non-integer value")
+		return nil
+	}
 }
